@@ -231,7 +231,7 @@ func (s *SubmitResp) IEncode() ([]byte, error) {
 	defer b.Release()
 
 	smgp.WriteHeaderNoLength(s.Header, b)
-	b.WriteFixedLenString(s.MsgID, 10)
+	b.WriteFixedLenString(msgIDOctets(s.MsgID), 10)
 	b.WriteUint32(s.Status)
 
 	return b.BytesWithLength()
